@@ -46,10 +46,6 @@ def build_registry(mods):
     reg.loops_by_key = {}
     for m in mods:
         for c in m.contracts:
-            if c.qname in reg.contracts:
-                # several properties may share a function: merge property ids, keep the first contract
-                reg.contracts[c.qname].props = tuple(sorted(set(reg.contracts[c.qname].props) | set(c.props)))
-                continue
             reg.add_contract(c)
         for f, mm in m.models.items():
             reg.models[f] = mm
@@ -96,6 +92,7 @@ def _task_function(qname):
     def body():
         try:
             c = _REG.contracts[qname]
+            _REG.current_module = getattr(c, 'module', None)
             rep = verify.verify_function(_REG, c)
             result['rep'] = _summarize(c, rep)
         except BaseException:
@@ -159,7 +156,7 @@ def _summarize(c, rep):
         clauses[name] = {'status': status, 'instances': len(insts), 'detail': detail,
                          'kind': (insts[0][2] or {}).get('kind')}
     return {
-        'qname': c.qname, 'props': list(c.props), 'paths': rep.paths, 'aborted_paths': rep.aborted_paths,
+        'qname': getattr(c, 'key', c.qname), 'props': list(c.props), 'paths': rep.paths, 'aborted_paths': rep.aborted_paths,
         'clauses': clauses, 'unsupported': rep.unsupported, 'errors': rep.errors,
         'inlined': sorted(rep.inlined), 'used_contracts': sorted(rep.used_contracts),
         'used_models': sorted(rep.used_models), 'native_calls': sorted(rep.native_calls),
@@ -289,6 +286,7 @@ def main(argv=None):
         print('CHECKER-ERROR: no contract module for %s' % prop)
         return 3
     tasks = []
+    seen_funcs = {}
     for q, c in _REG.contracts.items():
         if prop in c.props and not c.trusted and c.func is not None:
             if args.only and args.only not in q:
